@@ -721,7 +721,40 @@ func c18NATTimeout(p *Prog, r *Report, rule string) {
 		assign := casesWithStmt(ur, ".MinNATTimeout")
 		okProv = strings.Join(build, ",") == strings.Join(assign, ",") && len(build) > 0
 	}
-	r.Check(okProv && nDefs == 1, rule, "service.(*ServerConfig).UDPRelay:minimum-from-session-server", p.posStr(ur.Body.Pos()), "the minimum handed to every listener is sessionServer.Info().MinNATTimeout for exactly the protocols that build a session server", "the minimum NAT timeout handed to the listeners does not come from the session server's Info() for every protocol that builds one")
+	// and it happens before the listeners are configured with it: the switch that assigns the
+	// minimum (for exactly the session protocols, see above) lies on every path to the Configure
+	// call
+	if okProv && passed != nil {
+		for _, d := range ur.Defs(passed) {
+			as, isAs := ur.G.V[d].Node.(*ast.AssignStmt)
+			if !isAs {
+				continue
+			}
+			// the innermost switch statement around the assignment
+			var sw *ast.SwitchStmt
+			ast.Inspect(ur.Body, func(n ast.Node) bool {
+				if x, ok := n.(*ast.SwitchStmt); ok && x.Pos() <= as.Pos() && as.End() <= x.End() {
+					sw = x
+				}
+				return true
+			})
+			var heads []int
+			for _, v := range ur.G.V {
+				if sw != nil && v.Kind == VSwitchCase && v.Node != nil && sw.Body.Pos() <= v.Node.Pos() && v.Node.End() <= sw.Body.End() {
+					heads = append(heads, v.ID)
+				}
+			}
+			if sw == nil {
+				heads = []int{d}
+			}
+			for _, cs := range ur.AllCalls() {
+				if cs.Fn != nil && cs.Fn.Name() == "Configure" && !ur.G.Dominates(heads, cs.V) {
+					okProv = false
+				}
+			}
+		}
+	}
+	r.Check(okProv && nDefs == 1, rule, "service.(*ServerConfig).UDPRelay:minimum-from-session-server", p.posStr(ur.Body.Pos()), "the minimum handed to every listener is sessionServer.Info().MinNATTimeout for exactly the protocols that build a session server, assigned before the listeners are configured", "the minimum NAT timeout handed to the listeners does not come from the session server's Info() for every protocol that builds one (or the listeners are configured before it is assigned, i.e. against zero)")
 	// ss2022.NewUDPServer advertises the replay window; Info returns it
 	ns := p.Func("ss2022", "", "NewUDPServer")
 	adv := ""
